@@ -43,7 +43,11 @@ func Sorter[V any]() SorterClassLike[V] {
 	default:
 		// Add a new bound class type.
 		class = &sorterClass_[V]{
-			defaultRanker_: Collator[V]().Make().RankValues,
+			defaultRanker_: func(first V, second V) Rank {
+				// Each ranking uses its own collator so that sorters in
+				// different goroutines do not share any traversal state.
+				return Collator[V]().Make().RankValues(first, second)
+			},
 		}
 		sorterClass[name] = class
 	}
